@@ -204,9 +204,38 @@ fn compare(sutr: &SutResult, calls: &[AskRec], touched: bool, reference: &Outcom
     None
 }
 
+/// Ambient configuration B: an option that cannot matter for this request is switched the other way — S3 mode
+/// when the path canonicalises identically in both modes, form folding when no Content-Type mentions a form.
+/// (The reference is given the same configuration, so the comparison stays exact in any case.)
+pub fn flip_noop_options(case: &Case) -> Case {
+    let mut c = case.clone();
+    if let Ok(w) = case.wire.as_received() {
+        let a = refmodel::canon::canon_path(&w.path, false, false).map(|p| p.path).map_err(|e| e as u8);
+        let b = refmodel::canon::canon_path(&w.path, true, false).map(|p| p.path).map_err(|e| e as u8);
+        if a == b && !w.path.contains('+') {
+            c.cfg.s3 = !c.cfg.s3;
+        }
+        let formish = w.headers.iter().any(|(n, v)| n.eq_ignore_ascii_case("content-type") && String::from_utf8_lossy(v).to_ascii_lowercase().contains("form"));
+        if !formish {
+            c.cfg.fold = !c.cfg.fold;
+        }
+    }
+    c
+}
+
 /// Run the implementation and the reference on one case and compare.
 pub fn judge(case: &Case) -> Judged {
+    let flipped;
+    let case = if crate::env::ambient_b() {
+        flipped = flip_noop_options(case);
+        &flipped
+    } else {
+        case
+    };
     let mut provider = case.prov.to_provider();
+    if crate::env::ambient_b() {
+        provider = provider.strict().with_delays(1, 1);
+    }
     let sutr = sut::validate(&case.wire, &case.cfg, &mut provider);
     let calls = provider.calls();
     let touched = provider.touched();
@@ -319,7 +348,7 @@ pub fn judge_into(index: u64, case: &Case, st: &mut Stats) -> Judged {
         st.violation(Violation {
             index,
             what: what.clone(),
-            case: json!({"e2e": case}),
+            case: json!({"e2e": case, "ambient": if crate::env::ambient_b() { "B" } else { "A" }}),
             expected: exp.clone(),
             observed: obs.clone(),
             known: j.known.clone(),
@@ -336,6 +365,11 @@ pub fn replay(case: &serde_json::Value) -> i32 {
             return 2;
         }
     };
+    if case["ambient"] == "B" {
+        crate::env::set_ambient_b(true);
+        crate::env::set_log_mode(crate::env::LOG_OFF);
+        println!("ambient configuration B: logger at Trace formatting every record, strict provider that is not ready at once and answers late");
+    }
     let j1 = judge(&c);
     let j2 = judge(&c);
     println!("request:\n{}", c.wire.render());
